@@ -7,7 +7,8 @@ VERIF = os.path.dirname(os.path.dirname(os.path.abspath(__file__)))
 
 CHECKS = {
     "C01": ("runtime monitoring: first-seen history oracle over random call histories (threads, reused builders) + offline join of "
-            "event logs from several processes with different hash seeds / heap layouts / environments; purity check by clone comparison",
+            "event logs from several processes with different hash seeds / heap layouts / environments / case orders; slow calls observed "
+            "with and without injected CPU load; purity check by clone comparison",
             "held on K executions; refutes dependence on hash seeds, previous calls and layout only across the processes, "
             "threads and times actually produced"),
     "C02": ("runtime monitoring: differential oracle, gradual sequence vs one-shot passed_objects(i) on every prefix, over seeded "
@@ -39,7 +40,8 @@ CHECKS = {
             "covers game-reachable settings on generated realistic maps; NaN from formulas mirrored from lazer would still be reported"),
     "C10": ("runtime monitoring: cross-build differential execution, one seeded job list run by four separately built binaries "
             "(default, raw_strains, sync, both), offline join of the result logs (numeric equality, -0 == 0); maps include long dense ones "
-            "and mid-size maps built from rhythm phases (look-back windows of the skills end in a different phase)",
+            "and mid-size maps built from rhythm phases (look-back windows of the skills end in a different phase); besides calculator results "
+            "also check_suspicion/bpm/break time/attribute builder output and the converted map are compared",
             "differential execution across builds; equality is numeric as the property states"),
     "C11": ("sanitizers + runtime monitoring: Miri under Stacked Borrows and Tree Borrows, AddressSanitizer (also over the C02/C05/C06 "
             "workloads), valgrind memcheck, debug assertions, and a Vec<f64> reference model checked after every StrainsVec operation",
@@ -52,11 +54,12 @@ CHECKS = {
     "C13": ("runtime monitoring with a brute-force oracle: exhaustive enumeration of all small attribute shapes x misses x accuracy "
             "grid x priorities x origins, every generated state compared with the best of ALL hit-result distributions; large shapes sampled; "
             "same oracle for plays specified on a map-based builder before try_mode/mode_or_ignore; one request in three preceded on the same "
-            "thread by the same request for a shape differing in one count",
+            "thread by the same request for a shape differing in one count; mania shapes of 700-1600 objects judged by a closed-form optimum "
+            "that is self-checked against enumeration",
             "exhaustive over the stated small-shape space (evidence reports its size), exploration beyond; accuracy definition = the "
             "crate's public ScoreState::accuracy"),
     "C14": ("runtime monitoring: independent reference counts from public fields of the converted map + monotonicity / min(n,total) / "
-            "beyond-total invariants over every prefix length",
+            "beyond-total invariants over every prefix length; reference models for HoldOff and Invert",
             "reference counts are recomputed by the harness from Beatmap fields only"),
     "C15": ("runtime monitoring: sequential reference model of the iterator protocol (position model) against random programs of "
             "next/nth/len/size_hint/step_by/skip/take/count/last/zip, in release and overflow-checked debug builds",
